@@ -153,6 +153,7 @@ type Exec struct {
 	Trace       bool
 	LenOfSym    map[int]*Term
 	CurHarness  string
+	Deadline    time.Time
 	FreshDefs   map[string]*FreshDef
 	ContractsUsed []string
 	Tier        string
@@ -755,6 +756,9 @@ func (e *Exec) runFrame(f *Frame) (done []Outcome, more []*Frame) {
 		f.steps++
 		if f.steps > 5000000 {
 			unsupported("step limit exceeded")
+		}
+		if e.Instrs&0xfff == 0 && !e.Deadline.IsZero() && time.Now().After(e.Deadline) {
+			unsupported("exploration time budget exceeded")
 		}
 		if e.Trace {
 			fmt.Fprintf(os.Stderr, "%*s%s: %s\n", f.depth, "", f.fn.Name(), instr)
